@@ -26,7 +26,7 @@ From Coq Require Import List NArith Bool String.
 From JV.lib Require Import Bytes.
 From JV.gen Require Import DirectiveTables TagName.
 From JV.model Require Import ScannerSem Core TagTitle Catalog.
-From JV.proofs Require Import CatalogProofs FaithfulProofs ContentProofs BodyProofs InfoProofs FaithfulExamples LocalityExamples.
+From JV.proofs Require Import CatalogProofs FaithfulProofs ContentProofs BodyProofs InfoProofs DescProofs FaithfulExamples LocalityExamples.
 Import ListNotations.
 Open Scope N_scope.
 
@@ -174,3 +174,29 @@ Theorem full_content_faithful : forall pp bt banned post c,
       fview x = fold_left apply2 (events2_of bt j l2) fv_empty.
 Proof. exact full_content_faithful_lemma. Qed.
 Print Assumptions full_content_faithful.
+
+(* ======================================================================================= *)
+(* the descriptions of INFO and of the tags (proofs/DescProofs.v).
+   idesc c = info.description; tdesc n c = the description of the tag named n; vtext bt t = the normalised text
+   of the Description directive t; p_info t anc = t is a Description directly under INFO; p_tag n t anc = t is a
+   Description directly under a TAG directive named n.
+   FULL: the stored description is the text of THE Description child - wherever one stands there is no other
+   (before or after it in source order), and when none stands there is no description. *)
+Theorem info_desc_faithful : forall pp bt banned post c,
+  build pp bt banned post = COk c ->
+  ((forall q, In q (positions_all post) -> p_info (fst q) (snd q) = false) -> idesc c = None) /\
+  (forall l1 q l2, positions_all post = l1 ++ q :: l2 -> p_info (fst q) (snd q) = true ->
+     idesc c = Some (vtext bt (fst q)) /\
+     (forall y, In y l1 -> p_info (fst y) (snd y) = false) /\ (forall y, In y l2 -> p_info (fst y) (snd y) = false)).
+Proof. exact info_desc_faithful_lemma. Qed.
+Print Assumptions info_desc_faithful.
+
+Theorem tag_desc_faithful : forall pp bt banned post c,
+  build pp bt banned post = COk c ->
+  forall n,
+  ((forall q, In q (positions_all post) -> p_tag n (fst q) (snd q) = false) -> tdesc n c = None) /\
+  (forall l1 q l2, positions_all post = l1 ++ q :: l2 -> p_tag n (fst q) (snd q) = true ->
+     tdesc n c = Some (vtext bt (fst q)) /\
+     (forall y, In y l1 -> p_tag n (fst y) (snd y) = false) /\ (forall y, In y l2 -> p_tag n (fst y) (snd y) = false)).
+Proof. exact tag_desc_faithful_lemma. Qed.
+Print Assumptions tag_desc_faithful.
